@@ -17,9 +17,9 @@ RULES = {
     'A2': ownership.rule_A2, 'A5': ownership.rule_A5, 'A6': ownership.rule_A6, 'A7': ownership.rule_A7, 'A8': ownership.rule_A8,
     'L': contracts.rule_L, 'K': contracts.rule_K, 'E1': contracts.rule_E1, 'E2': contracts.rule_E2, 'E3': contracts.rule_E3,
     'E6': contracts.rule_E6, 'E7': contracts.rule_E7, 'D2': contracts.rule_D2, 'E9': contracts.rule_E9, 'E4': contracts.rule_E4,
-    'E10': contracts.rule_E10, 'E11': contracts.rule_E11, 'OPT': contracts.rule_OPT, 'OPTDEP': contracts.rule_OPTDEP, 'EQ1': contracts.rule_EQ1, 'ITER1': contracts.rule_ITER1,
+    'E10': contracts.rule_E10, 'E11': contracts.rule_E11, 'BYTEWIN': contracts.rule_BYTEWIN, 'OPT': contracts.rule_OPT, 'OPTDEP': contracts.rule_OPTDEP, 'EQ1': contracts.rule_EQ1, 'ITER1': contracts.rule_ITER1,
     'C': stream.rule_C, 'POSW': stream.rule_POSW, 'B1': stream.rule_B1, 'POST': stream.rule_POST, 'RB': stream.rule_RB, 'NOMOVE': stream.rule_NOMOVE,
-    'I': dims.rule_I, 'B3': dims.rule_B3, 'N2a': dims.rule_N2a, 'IDX': dims.rule_IDX, 'TY1': dims.rule_TY1, 'XDT': dims.rule_XDT,
+    'I': dims.rule_I, 'B3': dims.rule_B3, 'N2a': dims.rule_N2a, 'IDX': dims.rule_IDX, 'TY1': dims.rule_TY1, 'XDT': dims.rule_XDT, 'SCALE': dims.rule_SCALE,
     'B2': mutate.rule_B2, 'WB': mutate.rule_WB, 'N1': mutate.rule_N1, 'N2': mutate.rule_N2, 'N5': mutate.rule_N5, 'D5': mutate.rule_D5, 'RNG': mutate.rule_RNG, 'IDX1': mutate.rule_IDX1, 'SLN': mutate.rule_SLN,
     'E5': ingest.rule_E5, 'CHOKE': ingest.rule_CHOKE, 'LV': ingest.rule_LV, 'WIN': ingest.rule_WIN,
     'G2': mode.rule_G2, 'MIRROR': mode.rule_MIRROR, 'G3': mode.rule_G3, 'G5': mode.rule_G5, 'E8': mode.rule_E8,
@@ -98,7 +98,7 @@ _p('C09', ['F1', 'F2', 'F3', 'F4', 'F5', 'G1', 'N4', 'A1', 'A4', 'MEMO'],
                "of the lsb0/msb0 tables in Options.set_lsb0.",
    floors={'F1': 8, 'G1': 13})
 
-_p('C11', ['H5a', 'H5b', 'H5c', 'H2'],
+_p('C11', ['H5a', 'H5b', 'H5c', 'H2', 'SCALE'],
    decided=["every code of p3binary8, p4binary8, e5m2/e4m3 (both overflow modes), e3m2, e2m3, e2m1 decodes to the value "
             "its format defines (sign, exponent, mantissa, subnormals, zeros, infinities, NaNs): all entries of the 9 "
             "decode tables against an exact model",
@@ -148,7 +148,7 @@ _p('C01', ['K', 'E6', 'J2', 'A10', 'A1', 'A11', 'SLN', 'IDX1'],
    explanation="Class-provenance typing of every return of the operator/slicing methods per concrete class; sibling guard "
                "comparison; call-graph reachability to field reads.")
 
-_p('C06', ['C', 'POSW', 'B1', 'POST', 'RB', 'NOMOVE', 'E7', 'D2', 'J1', 'J2', 'OPT', 'CHOKE'],
+_p('C06', ['C', 'POSW', 'B1', 'POST', 'RB', 'NOMOVE', 'E7', 'D2', 'J1', 'J2', 'OPT', 'CHOKE', 'SCALE'],
    decided=["0 <= pos <= len in its structural part: _pos is definitely assigned on every escaping stream object; every "
             "_pos write is 0, the length, a validated/restored/found position, pos+len after a validated pos, or a "
             "bounded/checked increment; every effect that can change a BitStream's length is covered by stream-level "
@@ -168,7 +168,7 @@ _p('C06', ['C', 'POSW', 'B1', 'POST', 'RB', 'NOMOVE', 'E7', 'D2', 'J1', 'J2', 'O
                "name, post-condition table keyed by method.",
    floors={'POSW': 25, 'B1': 18})
 
-_p('C07', ['E1', 'E2', 'E3', 'E11', 'OPT', 'MEMO'],
+_p('C07', ['E1', 'E2', 'E3', 'E11', 'OPT', 'MEMO', 'BYTEWIN'],
    decided=["an empty pattern raises ValueError in find, rfind, findall, split, replace (and `in`/readto by delegation)",
             "an invalid [start, end) raises: every public function with start/end validates them through _validate_slice "
             "(or forwards them unchanged to one that does) before any other use",
@@ -276,7 +276,7 @@ _p('C20', ['M', 'D1', 'D5', 'N1', 'N2', 'N2a', 'N3', 'N4', 'N5', 'A5', 'B1', 'PO
                "resolution, global-write census.",
    floors={'M': 1000, 'D1': 150, 'N1': 20, 'N2': 20})
 
-_p('C02', ['H4', 'H2', 'H3', 'LV', 'OPTDEP', 'A7', 'F2', 'F5', 'INTEX'],
+_p('C02', ['H4', 'H2', 'H3', 'LV', 'OPTDEP', 'A7', 'F2', 'F5', 'INTEX', 'SCALE'],
    decided=["every creation route (constructor keyword, property assignment, token string, Dtype.build, pack, Array "
             "element) and every reading route (property, property with length, Dtype.parse, unpack, read) dispatches "
             "through the registry's set/get/read function for the name, so routes cannot disagree",
